@@ -194,12 +194,14 @@ def matchConts : List OpenC → Cur → Nat × Cur
       let (n, cf) := matchConts cs cur
       (n + 1, cf)
     | .item =>
-      if cur.blank then
-        if !c.m.hasChild then (0, cur) else
-        let (n, cf) := matchConts cs cur.skipWs
-        (n + 1, cf)
+      -- a white-space-only line that is indented enough loses exactly the item's indentation (what is left
+      -- matters inside code blocks); a blank line that is not continues an item that already has a child
+      if cur.blank && !c.m.hasChild then (0, cur)
       else if cur.indent ≥ c.m.contentIndent then
         let (n, cf) := matchConts cs (cur.skipCols c.m.contentIndent)
+        (n + 1, cf)
+      else if cur.blank then
+        let (n, cf) := matchConts cs cur.skipWs
         (n + 1, cf)
       else (0, cur)
 
@@ -211,9 +213,41 @@ def quoteDepth : List OpenC → Nat → Nat → Nat → Nat
 
 def isPara (l : OpenLeaf) : Bool := match l with | .para _ => true | _ => false
 
+/-! ## the two readings of the specification
+  On two points the specification's prose and its appendix "A parsing strategy" (= the reference
+  implementations) assign different structures to the same document.  The model's default follows the
+  appendix; the other reading of each point can be selected, so that a harness can tell on which documents
+  the difference matters (a document is *unambiguous* iff all four readings produce the same stream). -/
+structure Reading where
+  /-- prose reading of laziness: a list marker that could not interrupt a paragraph (empty item, ordered
+      start ≠ 1) is paragraph continuation text even on a line that does not match every open container
+      (`> a` / `2) y`: appendix = new list after the quote, prose = lazy continuation). -/
+  lazyList : Bool := false
+  /-- prose reading of link reference definitions: buffered text that so far consists of complete
+      definitions only is not a paragraph — it cannot be continued lazily and can be followed directly by
+      any block start (`[r]: /u` / `2) y`: appendix = paragraph `2) y`, prose = ordered list). -/
+  lrdNoPara : Bool := false
+  deriving Repr, DecidableEq
+
+/-- do the lines (chronological) consist of complete link reference definitions only? -/
+def lrdOnlyGo : Nat → List PLine → Bool
+  | 0, ls => ls.isEmpty
+  | _ + 1, [] => true
+  | fuel + 1, l0 :: tl =>
+    if l0.text.head? != some '[' then false else
+    let s := joinLines ((l0 :: tl).map (·.text))
+    match parseLRD s with
+    | none => false
+    | some (_, _, _, nchars) => lrdOnlyGo fuel ((l0 :: tl).drop (linesCovered s nchars))
+
+def lrdOnly (l : OpenLeaf) : Bool :=
+  match l with
+  | .para ls => lrdOnlyGo ls.length ls.reverse
+  | _ => false
+
 /-! ## phases 2 and 3 -/
 /-- `k` = number of matched containers; `first` = no block has been opened on this line yet. -/
-def openBlocks {n : Nat} : Nat → Core (n + 1) → Cur → Nat → Bool → Core (n + 1)
+def openBlocks (rd : Reading) {n : Nat} : Nat → Core (n + 1) → Cur → Nat → Bool → Core (n + 1)
   | 0, s, _, _, _ => s
   | fuel + 1, s, cur, k, first =>
     let ind := cur.indent
@@ -234,13 +268,13 @@ def openBlocks {n : Nat} : Nat → Core (n + 1) → Cur → Nat → Bool → Cor
     let setextDone := isSetext && s1.lastIsSetextHeading
     if setextDone then s1.touch k else
     let s := s1
-    let maybeLazy := first && isPara s.leaf
-    let contIsPara := maybeLazy && allC
+    let maybeLazy := first && isPara s.leaf && !(rd.lrdNoPara && lrdOnly s.leaf)
+    let contIsPara := maybeLazy && (allC || rd.lazyList)
     if !indented && t.head? == some '>' then
       let s := (s.prep k).pushQuote c1.col
       let c2 : Cur := ⟨t.drop 1, c1.col + 1, 0⟩
       let c3 := if c2.indent ≥ 1 then c2.skipCols 1 else c2
-      openBlocks fuel s c3 s.depth false
+      openBlocks rd fuel s c3 s.depth false
     else if let some (lvl, body) := (if indented then none else atx? t) then
       (s.prep k).emitLeaf (.heading lvl false) c1.col [(((c1.advance lvl).skipWs).col, body)]
     else if let some (ch, len, info) := (if indented then none else fenceOpen? t) then
@@ -270,7 +304,7 @@ def openBlocks {n : Nat} : Nat → Core (n + 1) → Cur → Nat → Bool → Cor
         else (spaces, after.skipCols spaces)
       -- the item joins the innermost matched list when the types agree, else a new list is opened
       let s := ((s.closeToDepth k).pushItem ord delim start c1.col { contentIndent := ind + w + pad }).touchAll
-      if emptyItem then s else openBlocks fuel s c4 s.depth false
+      if emptyItem then s else openBlocks rd fuel s c4 s.depth false
     | none =>
     if indented && !maybeLazy then
       let c4 := cur.skipCols 4
@@ -282,11 +316,11 @@ def openBlocks {n : Nat} : Nat → Core (n + 1) → Cur → Nat → Bool → Cor
 
 /-! ## one line -/
 /-- process one line in the sink that has already been advanced to it. -/
-def stepLine {n : Nat} (s : Core (n + 1)) (l : Line) : Core (n + 1) :=
+def stepLine (rd : Reading) {n : Nat} (s : Core (n + 1)) (l : Line) : Core (n + 1) :=
   let cur := Cur.ofLine l
   let (k, c1) := matchConts s.stack.reverse cur
   let allC := k == s.depth
-  let general := fun (_ : Unit) => openBlocks (l.length + 1) s c1 k true
+  let general := fun (_ : Unit) => openBlocks rd (l.length + 1) s c1 k true
   if !allC then general () else
   match s.leaf with
   | .fenced _ ch len fi _ _ =>
@@ -313,7 +347,7 @@ structure BState where
 
 def BState.init : BState := ⟨0, Core.init⟩
 
-def step (s : BState) (l : Line) : BState := ⟨s.n + 1, stepLine s.core.nextLine l⟩
+def step (rd : Reading) (s : BState) (l : Line) : BState := ⟨s.n + 1, stepLine rd s.core.nextLine l⟩
 
 def finish (s : BState) : BState := ⟨s.n, (s.core.closeToDepth 0).closeLeaf⟩
 
@@ -329,9 +363,14 @@ def docLines (doc : List Char) : List Line :=
   | [] :: r => r.reverse
   | _ => ls
 
-def run (ls : List Line) : BState := finish (ls.foldl step BState.init)
+def runR (rd : Reading) (ls : List Line) : BState := finish (ls.foldl (step rd) BState.init)
 
-/-- the block event stream of a document given as lines. -/
-def events (ls : List Line) : List Ev := (run ls).core.out
+/-- the block event stream of a document given as lines, under a reading of the specification. -/
+def eventsR (rd : Reading) (ls : List Line) : List Ev := (runR rd ls).core.out
+
+def run (ls : List Line) : BState := runR {} ls
+
+/-- the block event stream of a document given as lines (default reading: the appendix's strategy). -/
+def events (ls : List Line) : List Ev := eventsR {} ls
 
 end Verif.Model.LeanMark
